@@ -19,8 +19,17 @@ SPEC = dict(
                 "order is a topological order of the node graph (hence of the quotient graph), subgraph_preds/enemies describe the "
                 "quotient edges / enemy classes, no enemy pair in one group. Proved: new_establishes_Inv, tryMerge_preserves_Inv "
                 "(never panics/bug, a refused call changes nothing, a successful call joins exactly the two classes), all merge "
-                "sequences by induction, subgraphs() yields exactly the groups, tryMerge_refuses_iff (false <-> enemy pair between the groups or a third group on a "
-                "quotient path between them), cycle-check loop termination. Tie: bounded-exhaustive digraphs (all <=3-node digraphs "
+                "sequences by induction (merge_sequences_preserve_Inv, new_then_merges_Inv) and all histories of try_merge/find/"
+                "same_set calls from new (reachable_Inv), subgraphs() yields exactly the groups, tryMerge_refuses_iff (false <-> "
+                "enemy pair between the groups or a third group on a quotient path between them), "
+                "tryMerge_refuses_iff_cycle_or_conflict (the same with the cycle stated independently of the search: false <-> "
+                "different groups and (enemy pair between them or the quotient graph of the partition with the two groups "
+                "united has a cycle, MergeWouldCycle; equivalence mergeWouldCycle_iff in Proofs/SMQuotient.lean)), "
+                "reachable_tryMerge_refuses_iff (that characterisation and no-panic in every state reachable from new), "
+                "sameSet_find_agree_with_groups (the union-find inside SubgraphMerge: same_set(a,b) <-> a,b in one subgraphs() "
+                "group, find(a) = first node of a's group), "
+                "cycle-check loop termination. All SubgraphMerge/topo theorems assume node ids and predecessors < n (the "
+                "driver checks this before calling the model; the model fuel n+1 is proved sufficient). Tie: bounded-exhaustive digraphs (all <=3-node digraphs "
                 "with loops, all loop-free 4-node digraphs; thorough: all 4-node digraphs with loops, all loop-free 5-node digraphs), "
                 "exhaustive small union histories, every loop-free digraph on <=3 (thorough <=4) nodes x several all-pairs merge "
                 "orders x enemy sets, plus seeded random graphs / merge sequences / enemy sets, run through the real pub functions "
@@ -31,7 +40,12 @@ SPEC = dict(
                 "iteration order in the enemy remap is unobservable; sort_unstable+dedup / BTreeSet modelled as sorted-set insertion; "
                 "debug_assert!s are exercised (harness builds with debug-assertions) but not modelled except the one in subgraphs(); "
                 "validate_topo_sort: theorem for duplicate-free orders only (duplicates are diffed, not proved). The invariant's "
-                "ghost group list is proved equal to the subgraphs() listing (subgraphs_yields_groups)."),
+                "ghost group list is proved equal to the subgraphs() listing (subgraphs_yields_groups). Driver only: between two "
+                "input lines the model's partial maps are re-tabulated over the keys < n (tableLookup/tabulate in Driver/Main.lean, "
+                "for speed; agreement on keys < n is by construction, not a theorem). validate_topo_sort is outside the fixed "
+                "statement (extra). The input-distribution histogram counts the anchored try_merge branches (window size, "
+                "direct u->v edge skipped, predecessor group outside the window pruned, cycle through 1/2/.. intermediate groups, "
+                "declared vs inherited enemy, argument order swapped, other groups moved by the window re-sort)."),
     trusted_base=["slotmap SecondaryMap/SparseSecondaryMap modelled as partial functions; slotmap key Ord = insertion order of a fresh SlotMap",
                   "std HashMap/HashSet/BTreeSet/Vec modelled by abstract behaviour (HashSet iteration order is unobservable in try_merge)"],
     assumptions=["node ids are slotmap keys of one SlotMap without removals (stale-version keys not modelled)",
